@@ -219,6 +219,17 @@ def setattr_clears_exactly_on_static_attributes():
     o2._lazy_z = 1
     o2.r = 3
     prove("explicit-static-list-honoured", "_lazy_z" not in o2.__dict__)
+    # whatever is assigned: also the very object the attribute already holds (that is how an in-place update of a
+    # mutable attribute, `o.data += d`, reaches __setattr__ - the object is the same, its content is not)
+    arr = vec("data")
+    o3 = obj(L, data=arr)
+    L.__init__(o3)
+    o3._lazy_v = 1
+    o3.data = arr
+    prove("re-binding-the-same-object-clears-the-cache", "_lazy_v" not in o3.__dict__)
+    o3._lazy_v = 1
+    o3.data += real("increment")
+    prove("in-place-update-clears-the-cache", "_lazy_v" not in o3.__dict__)
 
 
 @harness(clause="lazy-mutable-class")
@@ -243,6 +254,14 @@ def lazy_property_caches_once_and_recomputes_after_clear():
     y = real("y")
     d.x = y
     prove("recomputed-after-defining-attribute-changed", And(eq(d.doubled, 2 * y), len(calls) == 2))
+    v = vec("v")
+    d2 = Demo(v)
+    first = d2.doubled
+    inc = real("inc")
+    d2.x += inc
+    i = fresh_index("i", 3)
+    prove("recomputed-after-an-in-place-update-of-the-defining-attribute", eq(d2.doubled[i], 2 * (v[i] + inc) if NATIVE else 2 * d2.x[i]))
+    prove("in-place-update-took-place", eq(d2.x[i], first[i] / 2 + inc))
 
 
 # ---------------------------------------------------------------------------
